@@ -1196,7 +1196,7 @@ func genSubPath(r *rand.Rand, glob bool) pathDesc {
 			e.Name = "*"
 		} else if r.Intn(6) == 0 {
 			e.Name = "l"
-			e.Keys = map[string]string{"k1": []string{"x", "y"}[r.Intn(2)]}
+			e.Keys = map[string]string{"k1": []string{"x", "y", "x/y"}[r.Intn(3)]} // a key value may contain the path separator
 			if glob && r.Intn(3) == 0 {
 				e.Keys["k1"] = "*"
 			}
